@@ -55,6 +55,23 @@ def main(tier: str) -> int:
     val = {"x0": 3, "x1": -2, "x2": 5}
     apply_of = {"neg": lambda a: -a[0], "add": lambda a: a[0] + a[1], "sub": lambda a: a[0] - a[1], "mul": lambda a: a[0] * a[1], "tern": lambda a: a[0] - a[1] * a[2]}
     fmt_of = {"neg": "neg({})", "add": "({} + {})", "sub": "({} - {})", "mul": "({} * {})", "tern": "tern({}, {}, {})"}
+    # functional nodes without arguments (a user-defined constant operator such as pi): called, not pushed unapplied
+    from thefittest.base import FunctionalNode, Tree as _Tree
+    from thefittest.utils import create_operator
+    seven = FunctionalNode(create_operator("seven", "seven", "seven", lambda: 7))
+    addn = next(n for n in us._functional_set[2] if n._name == "add")
+    x0n = next(n for n in us._terminal_set if getattr(n, "_name", None) == "x0")
+    for nodes_, ref_v_, ref_s_ in (([seven], 7, "seven"), ([addn, seven, x0n], 10, "(seven + x0)"), ([addn, x0n, seven], 10, "(x0 + seven)")):
+        chk.case(("arity0", ref_s_))
+        chk.count("arity0_functional")
+        try:
+            tz = _Tree(nodes_)
+            got_v_, got_s_ = tz(), str(tz)
+        except Exception as e:  # noqa
+            got_v_, got_s_ = repr(e)[:120], None
+        if got_v_ != ref_v_ or (got_s_ is not None and got_s_ != ref_s_):
+            chk.fail("calling a tree does not return the value of the expression it denotes", {"tree": ref_s_, "got": str(got_v_)[:120], "reference": ref_v_, "printed": got_s_},
+                     {"fn": "__call__", "clause": "arity0"})
     for ti, t in enumerate(trees):
         fl = sy.flat(t)
         ar = [int(a) for a in t._n_args]
@@ -113,6 +130,14 @@ def main(tier: str) -> int:
             exp_ar = ar[:i] + [int(a) for a in other._n_args] + ar[end:]
             if [n._name for n in cc._nodes] != exp_names or [int(a) for a in cc._n_args] != exp_ar or not TL.wf(exp_ar):
                 chk.fail("concat(i, other) does not replace exactly the subterm at i", {**di, "other": str(other)}, {"fn": "concat"})
+            # levels of a DERIVED tree (the source tree has been asked for its levels above): recursive definition again
+            if TL.wf(exp_ar) and i % 2 == 0:
+                nested_cc, _ = TL.parse(exp_names, exp_ar)
+                lvc = [int(x) for x in cc.get_levels(0)]
+                cpy = cc.copy()
+                if lvc != TL.ref_levels(nested_cc) or int(cc.get_max_level()) != max(lvc) or [int(x) for x in cpy.get_levels(0)] != lvc:
+                    chk.fail("get_levels / get_max_level of a tree built by concat disagree with the recursive definition",
+                             {**di, "other": str(other), "result": str(cc), "got": lvc, "reference": TL.ref_levels(nested_cc)}, {"fn": "get_levels", "clause": "derived"})
             if [n._name for n in t._nodes] != names or [int(a) for a in t._n_args] != ar:
                 chk.fail("subtree / concat modified the tree they were called on", di, {"fn": "concat", "clause": "inputs"})
             if i % 3 == 0:
